@@ -1,6 +1,9 @@
 package PKG
 
-import "time"
+import (
+	"context"
+	"time"
+)
 
 // Engine-side declarations of the harness vocabulary. Bodies are never executed: gosym intercepts
 // calls to these functions by name (see /verif/engine/gosym/vf.go).
@@ -28,8 +31,18 @@ func vfReach(label string)          { panic("vf intrinsic") }
 
 func vfChoose(name string, n int) int     { panic("vf intrinsic") }
 func vfRange(name string, lo, hi int) int { panic("vf intrinsic") }
-func vfConcrete(x int) int                { panic("vf intrinsic") }
-func vfTier() int                         { panic("vf intrinsic") }
+
+// vfProbe: a size in lo..hi, or just beyond an integer constant that the repository functions whose names contain one
+// of the |-separated filters (and the repository functions they call) compare something with
+func vfProbe(name string, funcs string, lo, hi int) int { panic("vf intrinsic") }
+
+// vfProbeDuration: base, or 20% beyond a time.Duration constant (1 ms .. 10 s) mentioned by the named repository functions
+func vfProbeDuration(name string, funcs string, base time.Duration) time.Duration {
+	panic("vf intrinsic")
+}
+func vfConcrete(x int) int               { panic("vf intrinsic") }
+func vfCtxDone(ctx context.Context) bool { panic("vf intrinsic") }
+func vfTier() int                        { panic("vf intrinsic") }
 
 func vfFn(name string, args ...int) int    { panic("vf intrinsic") }
 func vfPred(name string, args ...int) bool { panic("vf intrinsic") }
@@ -49,6 +62,7 @@ func vfLog(msg string, args ...interface{}) { panic("vf intrinsic") }
 func vfQuiesce()                                                { panic("vf intrinsic") }
 func vfGoroutineID() int                                        { panic("vf intrinsic") }
 func vfSetMapOrder(mode int)                                    { panic("vf intrinsic") }
+func vfSetPoolMode(mode int)                                    { panic("vf intrinsic") }
 func vfSetDelayBound(d int)                                     { panic("vf intrinsic") }
 func vfMemPoints(on bool)                                       { panic("vf intrinsic") }
 func vfNow() int64                                              { panic("vf intrinsic") }
